@@ -10,5 +10,5 @@ PROP = "C04"
 
 
 def run(tier, seed):
-    return speccheck.run(PROP, tier, seed, ["agg", "scen_having_chain", "agg", "scen_summarize_key", "scen_const_key", "general", "agg", "subquery", "tall"], 300, 10000, also=("C01",),
+    return speccheck.run(PROP, tier, seed, ["agg", "scen_having_chain", "scen_summarize_case_key", "agg", "scen_summarize_key", "scen_const_key", "general", "agg", "subquery", "tall"], 300, 10000, also=("C01",),
                          assumptions=["Polars group_by().agg() and SQLite GROUP BY are modelled by Spec.groupsOf / Ops.agg; their agreement with the engines is by comparison on generated programs"])
